@@ -631,24 +631,18 @@ Proof.
   unfold key_page. rewrite H. reflexivity.
 Qed.
 
-Theorem key_model_ok s c keys dropkey sizes raw0 tok extra :
+(* the judge's two conditions on a complete chain over a well-formed (ascending) listing; the
+   statement about [C15_ok] itself, where the listing comes in the collection's order and the
+   handler re-sorts it, is [list_model_ok] in Pages/ListingProofs.v *)
+Theorem key_chain_ok_bool c keys dropkey sizes tok extra :
   cfg_ok c = true -> keys_wf keys = true -> in32 (zlen keys) = true -> zlen keys < zlen sizes ->
-  Forall is_byte extra ->
-  C15_ok (KKeys s keys dropkey sizes raw0 tok extra (key_chain c keys dropkey sizes (WFirst tok extra))) = true.
+  Forall is_byte extra -> tok <> TokMalformed ->
+  enumerates (expected_after keys tok) (zlen keys) sizes (key_chain c keys dropkey sizes (WFirst tok extra))
+  && (zlen (key_chain c keys dropkey sizes (WFirst tok extra)) <=? zlen keys + 2) = true.
 Proof.
-  intros Hc Hwf H32 Hfuel Hex. unfold C15_ok.
-  assert (Hsz : sizes <> []).
-  { intros ->. pose proof (zlen_nonneg keys). unfold zlen in Hfuel at 2. simpl in Hfuel. lia. }
-  assert (Hgood : tok <> TokMalformed ->
-    enumerates (expected_after keys tok) (zlen keys) sizes (key_chain c keys dropkey sizes (WFirst tok extra))
-    && (zlen (key_chain c keys dropkey sizes (WFirst tok extra)) <=? zlen keys + 2) = true).
-  { intros Ht. pose proof (expected_after_len keys tok) as Hl.
-    destruct (key_chain_good c keys dropkey sizes tok extra Hc Hwf Ht Hex ltac:(lia)) as [He Hn].
-    rewrite (in32_wrap _ H32) in He. rewrite He, Hn.
-    pose proof (calls_key_le sizes (zlen (expected_after keys tok)) (zlen_nonneg _)).
-    destruct (Z.leb_spec (calls_key (zlen (expected_after keys tok)) sizes) (zlen keys + 2)); [reflexivity|lia]. }
-  destruct tok as [|k|].
-  - apply Hgood. discriminate.
-  - apply Hgood. discriminate.
-  - rewrite key_chain_rejects by auto. reflexivity.
+  intros Hc Hwf H32 Hfuel Hex Ht. pose proof (expected_after_len keys tok) as Hl.
+  destruct (key_chain_good c keys dropkey sizes tok extra Hc Hwf Ht Hex ltac:(lia)) as [He Hn].
+  rewrite (in32_wrap _ H32) in He. rewrite He, Hn.
+  pose proof (calls_key_le sizes (zlen (expected_after keys tok)) (zlen_nonneg _)).
+  destruct (Z.leb_spec (calls_key (zlen (expected_after keys tok)) sizes) (zlen keys + 2)); [reflexivity|lia].
 Qed.
